@@ -3,7 +3,7 @@
    and how the model reacts to the small code changes the check is meant to
    detect. *)
 From Coq Require Import ZArith List Bool Lia.
-From Tally Require Import Base.Obs Model.Varint Model.Thrift.
+From Tally Require Import Base.ObsCore Model.Varint Model.Thrift.
 Import ListNotations.
 Open Scope Z_scope.
 
